@@ -461,7 +461,7 @@ class Bf3File:
             try:
                 comments = {}
                 line = bf3fileobj.readline()
-                while line != "\n":
+                while line not in ("\n", "\r\n"):
                     k, v = line.split(":", 1)
                     comments[k] = v.strip()
                     line = bf3fileobj.readline()
